@@ -20,7 +20,7 @@ EXPLANATION = (
     "R05.4 no test on the number of bytes the decoders consumed can make Message::factory reject when permissive_mode is true. "
     "R05.5 tag text becomes the lookup key without wrap-around, so a tag outside the schema cannot alias a known field (rule of C04 R04.2). "
     "R05.6 Message::encode(f8String&) takes the length from the encoder, not from a C string (rule of C02 R02.7). "
-    "NOT decided: decoded values.")
+    "R05.7 the tag capacity handed to the tokeniser in decode/decode_group is at least 21 bytes (any tag strtoul can tell apart). NOT decided: decoded values.")
 
 MB = 'FIX8::MessageBase::'
 
@@ -107,3 +107,32 @@ def run(ctx):
                           % fc.cond_node(b).text())
     if n_tests == 0:
         ctx.ok('R05.4', 'FIX8::Message::factory#consumed-test-strict-only', fac.loc, 'factory has no rejecting test on the consumed length')
+    # ---------------- R05.7 an unknown tag is whatever digits the counterparty sent: the tokeniser must hand every tag strtoul can tell apart (up to the 20
+    # digits of 2^64) to the decoder, or the section decoder's loop ends silently at that token and every known field behind it is lost.
+    # Decided at the call sites: the tag capacity handed to extract_element / extract_element_fixed_width (explicit or default argument) is >= 21.
+    n_cap = 0
+    for fq in (MB + 'decode', MB + 'decode_group'):
+        g = prog.fn1(fq)
+        ctx.saw(g)
+        for c in g.calls():
+            if c.callee_qp not in (MB + 'extract_element', MB + 'extract_element_fixed_width') or c.callee is None:
+                continue
+            pn = c.callee.get('pn', [])
+            if 'tag_sz' not in pn or 'tag' not in pn:
+                continue
+            k = pn.index('tag_sz')
+            if k >= len(c.args):
+                continue
+            cap = c.args[k].strip(casts=True).value
+            if cap is None:
+                cap = q.eval_int(c.args[k], {})
+            bufcap = q.array_capacity(c.args[pn.index('tag')])
+            n_cap += 1
+            if cap is None:
+                raise AnalysisBroken('%s: tag capacity of `%s` is not a constant' % (fq, c.text()[:80]))
+            ctx.check(cap >= 21 and (bufcap is None or bufcap >= cap), 'R05.7', '%s#tag-capacity@%d' % (fq, c.line), c.loc,
+                      'the tokeniser is given room for a %d-byte tag (>= 20 digits + terminator; buffer %s bytes)' % (cap, bufcap),
+                      'the tokeniser is given room for a %d-byte tag only: an unknown tag of %d or more digits does not tokenise, the section decoder leaves its loop '
+                      'silently at that token, and the known fields behind it are lost (permissive mode) ' % (cap, cap))
+    ctx.need(n_cap >= 3, 'fewer than 3 tokeniser calls with a tag capacity found in decode/decode_group (%d)' % n_cap)
+    ctx.floor('R05.7', 3)
